@@ -66,6 +66,18 @@ def make_plan(seed: int, tier: str, opts: dict) -> dict:
                     model["nodes"][i]["dist"] = nd_dist
                 if nd_delay is not None:
                     model["nodes"][i]["delay"] = nd_delay
+            elif r.random() < opts.get("reconnect_p", 0.25):
+                # the user calls connect() again for an already connected pair (same flags): the connection then has exactly the delay
+                # arguments of *this* call - arguments left out fall back to connect()'s defaults (no delay), not to what an earlier call set
+                ci = r.randrange(len(spec["conns"]))
+                c = spec["conns"][ci]
+                per = min(1.0 / spec["nodes"][c["dst"]]["rate"], 1.0 / spec["nodes"][c["src"]]["rate"])
+                c_dist = _finite_dist(r, per, False) if r.random() < 0.5 else None
+                cur = c_dist or ["det", 0.0]
+                c_delay = sp._r6(min(sp.dist_max(cur), per) * r.choice([1.0, 0.5])) if (cur[0] == "mix" or r.random() < 0.4) else None
+                hist.append(["reconnect", ci, c_dist, c_delay])
+                model["conns"][ci]["dist"] = cur
+                model["conns"][ci]["delay"] = c_delay if c_delay is not None else float(onp.float32(cur[1]))
             else:
                 ci = r.randrange(len(spec["conns"]))
                 c = spec["conns"][ci]
@@ -139,6 +151,8 @@ def dist_sig(dd):
         return ["det", round(float(d.loc), 6)]
     if isinstance(d, distrax.MixtureSameFamily):
         return ["mix", [round(float(x), 6) for x in onp.asarray(d.components_distribution.loc)], [round(float(x), 4) for x in onp.asarray(d.mixture_distribution.probs)]]
+    if isinstance(d, distrax.Normal) and float(d.scale) == 0.0:
+        return ["det", round(float(d.loc), 6)]  # connect()'s default when no distribution is given
     if isinstance(d, distrax.Normal):
         return ["norm", round(float(d.loc), 6), round(float(d.scale), 6)]
     return [type(d).__name__]
@@ -159,6 +173,17 @@ def apply_history(nodes, spec, hist):
             c = spec["conns"][op[1]]
             conn = nodes[names[c["dst"]]].inputs[sp.input_name(spec, c)]
             conn.set_delay(delay_dist=sp.make_dist(op[2]) if op[2] is not None else None, delay=op[3])
+        elif op[0] == "reconnect":
+            import rex.constants as const
+
+            c = spec["conns"][op[1]]
+            kw = {}
+            if op[2] is not None:
+                kw["delay_dist"] = sp.make_dist(op[2])
+            if op[3] is not None:
+                kw["delay"] = op[3]
+            nodes[names[c["dst"]]].connect(nodes[names[c["src"]]], blocking=c["blocking"], skip=c["skip"], window=c["window"],
+                                           jitter=const.Jitter.LATEST if c["jitter"] == "L" else const.Jitter.BUFFER, name=c.get("name"), **kw)
 
 
 def check_config(nodes, model, names):
